@@ -19,6 +19,8 @@ var runners = map[string]eng.Runner{
 	"C06": wire.C06,
 	"C07": wire.C07,
 	"C08": wire.C08,
+	"C12": wire.C12,
+	"C13": wire.C13,
 	"C16": wire.C16,
 	"C18": wire.C18,
 }
